@@ -3,7 +3,7 @@ CONSTANTS
   MaxN = 3
   NameSet = {"a"}
   Prefixes = {"x"}
-  Uris = {"u", "u/"}
+  Uris = {"u", "u/", ""}
   Texts = {}
   Keys = {}
   MaxLevel = 99
